@@ -71,11 +71,11 @@ pub fn forelse(id: u32, out: Out) -> impl Fn(i64) -> R + Send + 'static {
     move |e| { cb(id); match out { O(c) => Ok(mix(e, c)), E(c) => Err(mix(e, c)), P => panic!("user{}", id) } } }
 pub fn fmaperr(id: u32, out: Out) -> impl Fn(i64) -> i64 + Send + 'static {
     move |e| { cb(id); match out { O(c) | E(c) => mix(e, c), P => panic!("user{}", id) } } }
-pub fn hdef(id: u32, out: Out) { log("hd".to_string()); if let P = out { panic!("user{}", id) } }
+pub fn hdef(id: u32, out: Out) { log(format!("hd:{}", id)); if let P = out { panic!("user{}", id) } }
 pub fn hcall(id: u32, args: String, out: Out) -> i64 {
-    log(format!("hc:{}", args)); match out { O(c) | E(c) => c, P => panic!("user{}", id) } }
+    log(format!("hc:{}:{}", id, args)); match out { O(c) | E(c) => c, P => panic!("user{}", id) } }
 pub fn hcallr(id: u32, args: String, out: Out) -> R {
-    log(format!("hc:{}", args)); match out { O(c) => Ok(c), E(c) => Err(c), P => panic!("user{}", id) } }
+    log(format!("hc:{}:{}", id, args)); match out { O(c) => Ok(c), E(c) => Err(c), P => panic!("user{}", id) } }
 pub fn panic_text(e: Box<dyn std::any::Any + Send>) -> String {
     let s = if let Some(s) = e.downcast_ref::<&str>() { s.to_string() } else if let Some(s) = e.downcast_ref::<String>() { s.clone() } else { "<any>".to_string() };
     s.replace(|c: char| c.is_whitespace(), "_")
@@ -114,6 +114,8 @@ class Op:
 class Prog:
     def __init__(self, pid, kind, name):
         self.pid, self.kind, self.name = pid, kind, name
+        self.base = 0               # offset added to every event id in the Rust text (isolates programs from each
+                                    # other's detached threads, which may still log after their program was abandoned)
         self.branches = []          # list of dict(name=None|str, mut=bool, ops=[Op])   ops[0].mode == init
         self.handler = None         # dict(kind='map'|'then'|'and_then', id, out, block, pos)
         self.opts = []              # option source strings
@@ -164,12 +166,12 @@ class Prog:
     def operand_src(self, op, k):
         fn = {"init": "init", "map": "fmap", "andThen": "fand", "then": "fthen", "inspect": "fins",
               "orElse": "forelse", "mapErr": "fmaperr"}[op.mode]
-        call = "%s(%d, %s)" % (fn, op.cb, self.out_src(op.out))
+        call = "%s(%d, %s)" % (fn, op.cb + self.base if op.cb else 0, self.out_src(op.out))
         if self.is_async():
             call = self.async_operand(op, call)
         if op.block:
             vis = ", ".join('("%s", %s.show())' % (n, n) for n in self.visible_names(k))
-            return "{ %s(%d, &[%s]); %s }" % ("capp" if op.cap_panics else "cap", op.cap_id, vis, call)
+            return "{ %s(%d, &[%s]); %s }" % ("capp" if op.cap_panics else "cap", op.cap_id + self.base, vis, call)
         return call
 
     def async_operand(self, op, call):
@@ -216,12 +218,12 @@ class Prog:
             args = ", ".join("a%d: %s" % (i, ty) for i in range(n))
             shown = "format!(\"(%s)\", %s)" % (",".join("{}" for _ in range(n)), ", ".join("a%d.show()" % i for i in range(n)))
             fn = "hcallr" if h["kind"] == "and_then" else "hcall"
-            body = "%s(%d, %s, %s)" % (fn, h["id"], shown, self.out_src(h["out"]))
+            body = "%s(%d, %s, %s)" % (fn, h["id"] + self.base, shown, self.out_src(h["out"]))
             if self.is_async() and h["kind"] in ("then", "and_then"):
                 body = "ready(%s)" % body if h["kind"] == "then" else "ready(%s)" % body
             clo = "|%s| %s" % (args, body)
             if h.get("block"):
-                clo = "{ hdef(%d, %s); %s }" % (h["id"], self.out_src(h.get("def_out", ("ok", 0))), clo)
+                clo = "{ hdef(%d, %s); %s }" % (h["id"] + self.base, self.out_src(h.get("def_out", ("ok", 0))), clo)
             items.insert(min(h.get("pos", len(items)), len(items)), "%s => %s" % (h["kind"], clo))
         return (" ".join(self.opts) + " " if self.opts else "") + ", ".join(items)
 
@@ -305,24 +307,36 @@ def setup():
 _ev_thread = re.compile(r"@([^#]*)#ThreadId\((\d+)\)$")
 
 
-def parse_rust_events(s):
-    """Returns list of (text, thread name, thread id)."""
+def parse_rust_events(s, base=0):
+    """Returns list of (text, thread name, thread id); only the events of the program whose ids start at `base`."""
     out = []
     for w in s.split(" "):
         if not w:
             continue
         m = _ev_thread.search(w)
-        if m:
-            out.append((w[:m.start()], m.group(1), int(m.group(2))))
-        else:
-            out.append((w, "?", -1))
+        text, tname, tid = (w[:m.start()], m.group(1), int(m.group(2))) if m else (w, "?", -1)
+        f = text.split(":", 2)
+        if f[0] in ("cb", "cap", "hd", "hc") and len(f) > 1 and f[1].isdigit():
+            i = int(f[1])
+            if not (base <= i < base + 1000):
+                continue     # a detached thread of an earlier (abandoned) program
+            i -= base
+            if f[0] == "cb":
+                text = "cb:%d" % i
+            elif f[0] == "cap":
+                text = "cap:%d:%s" % (i, f[2])
+            elif f[0] == "hd":
+                text = "hd"
+            else:
+                text = "hc:" + f[2]
+        out.append((text, tname, tid))
     return out
 
 
-def normalize_panic(msg):
-    m = re.match(r"panic (user\d+)$", msg)
+def normalize_panic(msg, base=0):
+    m = re.match(r"panic user(\d+)$", msg)
     if m:
-        return "panic " + m.group(1)
+        return "panic user%d" % (int(m.group(1)) - base)
     if msg.startswith("panic internal_error:_entered_unreachable_code") or "unreachable" in msg:
         return "panic unreachable"
     if msg.startswith("panic called_`Result::unwrap()`_on_an_`Err`_value") or "JoinHandle" in msg:
@@ -395,8 +409,8 @@ def compare_program(prog, rust_line, spec_line, run_line):
     if f[0] == "BLOCKED":
         problems.append(("impl-vs-spec", "the caller was still blocked after 20 s; events so far: " + (f[1] if len(f) > 1 else "")))
         return problems
-    i_res = normalize_panic(f[0])
-    evs = parse_rust_events(f[1] if len(f) > 1 else "")
+    i_res = normalize_panic(f[0], prog.base)
+    evs = parse_rust_events(f[1] if len(f) > 1 else "", prog.base)
     if i_res != s_res:
         problems.append(("impl-vs-spec", "result: implementation %r, reference semantics %r" % (i_res, s_res)))
     _, cbs = prog.cap_positions()
@@ -412,9 +426,16 @@ def compare_program(prog, rust_line, spec_line, run_line):
         problems.append(("impl-vs-spec", "caller-side events: implementation %r, reference semantics %r" % (i_main, s_main_cmp)))
     # forked chains: per (b, k) the callbacks in order, on a thread of the documented name, one distinct thread each
     tids = {}
+    mjp = re.match(r"panic joinUnwrap:(\d+):(\d+)", spec_line)
     for (b, k), (name, ids) in s_forks.items():
         got = [(text, tname, tid) for (text, tname, tid) in evs if text.startswith("cb:") and cbs.get(int(text[3:])) == (b, k)]
-        if [int(t[0][3:]) for t in got] != ids:
+        got_ids = [int(t[0][3:]) for t in got]
+        if mjp and int(mjp.group(2)) == k and b > int(mjp.group(1)):
+            # the caller panicked at the join of a lower-numbered thread: this thread is detached and may not have
+            # finished (or started) when the log was read; what it did run must be a prefix of its chain
+            if got_ids != ids[:len(got_ids)]:
+                problems.append(("impl-vs-spec", "detached thread of branch %d step %d ran %r, not a prefix of %r" % (b, k, got_ids, ids)))
+        elif got_ids != ids:
             problems.append(("impl-vs-spec", "thread of branch %d step %d ran callbacks %r, expected %r" % (b, k, [t[0] for t in got], ids)))
         for (_, tname, tid) in got:
             if tname != name:
@@ -464,6 +485,8 @@ def run_programs(ctx, progs, crate="k2sync", with_async=False, prelude=PRELUDE_S
         ctx.k1_diffs += diffs
         ctx.broken.append(("K1 generator correspondence (K2 programs)", [d.to_json() for d in diffs[:3]]))
     expected = lean_expected(progs, structures)
+    for i, p in enumerate(progs):
+        p.base = 1000 * (i + 1)
     src = prelude + "".join(p.rust_fn() for p in progs) + main % ", ".join('("%s", %s as fn() -> String)' % (p.pid, p.pid) for p in progs)
     ok, out, log = build_and_run(crate, src, with_async)
     results = []
